@@ -21,8 +21,12 @@ package bufcheckserverhandle
 //@ trusted pure interface bufprotosource.File
 //@ trusted pure interface bufprotosource.Location
 // The annotation sink: one annotation per call, at `location` (or, without a location, for file `inputFileName`).
+// The message is fmt.Sprintf(format, args...): the text names the element only if the format consumes
+// exactly the arguments given with the verbs used for annotation messages (%s %q %v %d %X %T), see
+// fmtArgsOK in /verif/specs/fmt.spec.
 //@ trusted func (bufcheckserverutil.ResponseWriter) AddProtosourceAnnotation(location, againstLocation, inputFileName, format, args)
 //@   modifies ghost.annCount, ghost.annLocs, ghost.annFiles
+//@   requires format-matches-args {C03}: fmtArgsOK(format, len(args))
 //@   ensures ghost.annCount == old(ghost.annCount) + 1
 //@   ensures ghost.annLocs == add(old(ghost.annLocs), location)
 //@   ensures ghost.annFiles == add(old(ghost.annFiles), inputFileName)
